@@ -74,16 +74,18 @@ CLAIMS = {
              "released with the same affine forms at all 6 allocation sites; margin-shift loops bounded first (left >= 0, left < nknots-1) and "
              "entered only from the boundary centres in all 6 kernel instantiations; the SIMD lane cap dominating every lane store and core call "
              "in all 4 gradient bodies with NVECS*VECTOR_SIZE >= cap and VC <= NVECS for every reachable vector core; positive extents of all "
-             "58 variable-length arrays; rejection of unordered (NaN) coordinates by lookup. Does not decide index ranges inside the recurrences "
-             "numerically, nor safety on tables that are not well-formed.",
+             "58 variable-length arrays; every one of the 216 knot/output/scratch index sites of the kernels (bsplvb per call site) stays inside the "
+             "padded arrays by interval arithmetic on affine forms; rejection of unordered (NaN) coordinates; the centre range rules of C04. "
+             "Does not decide safety on tables that are not well-formed, nor termination.",
         note=TRUST + "Assumes well-formed tables (decided for loaded tables under C07) and centres produced by searchcenters.",
         technique="affine-form agreement of allocation/release sites, guard-shape and dominance rules on instantiated kernels, abstract evaluation of the range test for unordered input"),
     "C04": dict(
         text="Decides the shape of centre lookup: acceptance test equal to first < x <= last (relational normal form, ordered semantics) as the first "
              "statement of every iteration, exactly one failure and one success exit, clamp targets order[i] / naxes[i]-1 under the right "
-             "conditions, last-interval adjustment, search interval [order, nknots-2], and the zero-on-failure wiring of both call operators. "
-             "Does not decide termination of the binary search nor the bracket knot[c] <= x < knot[c+1] (loop invariants over runtime knots; "
-             "a solver's job, out of this family).",
+             "conditions, last-interval adjustment, search interval [order, nknots-2], bisection step and exit condition (so the bracket "
+             "knot[c] <= x < knot[c+1] and order <= c <= nknots-order-2 hold whenever the search terminates), and the zero-on-failure wiring of "
+             "the call operators. Does not decide termination of the binary search (a loop invariant over runtime knots; a solver's job, out "
+             "of this family).",
         note=TRUST,
         technique="relational normal forms over the instantiated AST, exit/dominance structure"),
     "C03": dict(
